@@ -19,7 +19,7 @@ LEAVES = [("int", -1), ("int", 0), ("int", 1), ("int", 2), ("none", 0), ("true",
 # closure shadows the globals (Python's rule; the re-evaluator must look names up in the same order).
 C_VALUE = ("int", 5, [])
 G_VALUE = ("list", 0, [7])
-UNARY = ["not", "neg", "ident", "len", "first", "attr", "isnone", "all_gt", "all_pos", "sum_star", "comp"]
+UNARY = ["not", "neg", "ident", "len", "first", "attr", "isnone", "all_gt", "all_pos", "sum_star", "comp", "typeof"]
 NONE_ELEM = -9   # a list element that is None
 BINARY = ["add", "floordiv", "and", "or", "lt", "eq", "in"]
 TERNARY = ["ifexp", "lt2", "and3", "or3"]
@@ -97,6 +97,8 @@ def py_value(v: dict, objs: Dict[int, Obj]) -> Any:
         return AllFail(None if v["n"] == NONE_ELEM else v["n"])
     if t == "obj":
         return objs.setdefault(v["n"], Obj(v["n"]))
+    if t == "cls":
+        return {1: int, 2: bool, 3: type(None), 4: list, 5: Obj, 6: type}[v["n"]]
     raise ValueError(t)
 
 
@@ -111,6 +113,8 @@ def tla_value_of(x: Any) -> list:
         return ["list", 0, [NONE_ELEM if e is None else e for e in x]]
     if isinstance(x, Obj):
         return ["obj", x.v, []]
+    if isinstance(x, type):
+        return ["cls", {int: 1, bool: 2, type(None): 3, list: 4, Obj: 5, type: 6}.get(x, 0), []]
     return ["?", 0, []]
 
 
@@ -125,7 +129,7 @@ def parse(expr: list, p: int = 0) -> Tuple[dict, int]:
     return node, q
 
 
-ATOMIC = ("int", "none", "true", "false", "name", "ident", "len", "first", "attr", "all_gt", "all_pos", "sum_star", "comp")
+ATOMIC = ("int", "none", "true", "false", "name", "ident", "len", "first", "attr", "all_gt", "all_pos", "sum_star", "comp", "typeof")
 
 
 def render(node: dict, rec: bool = False) -> str:
@@ -173,6 +177,8 @@ def render(node: dict, rec: bool = False) -> str:
             s = "(lambda _it: [x for x in _it])(" + sub(0) + ")"
         else:
             s = "[x for x in " + sub(0) + "]"   # the loop variable shadows the argument x
+    elif k == "typeof":
+        s = "type(" + sub(0, False) + ")"        # a call whose result is a class (must be listed like any call)
     elif k == "first":
         s = sub(0) + "[0]"
     elif k == "attr":
@@ -488,7 +494,13 @@ def check_cases(res: CheckResult, prop_clauses: Dict[str, set], cases: List[dict
                             text, list(lines)), c)
                 # sub-expressions Python skipped must not be evaluated while the message is built
                 ncalls_msg = len(mod.ident_calls) - ncalls_first
-                if ncalls_msg != want["identcalls"]:
+                if ncalls_msg > want["identcalls"] and want["identcalls"] > 0 and ncalls_msg % want["identcalls"] == 0 \
+                        and set(p_ for p_ in want["touched"]) <= set(want["evaluated"]):
+                    # nothing outside Python's own evaluation was touched, but the same operands were evaluated again
+                    _viol(res, prop_clauses, "msg.operand_evaluated_again",
+                          "`{}` x={!r} y={!r}: ident() was called {} times while building the message, once per "
+                          "operand ({}) is allowed".format(text, xv, yv, ncalls_msg, want["identcalls"]), c)
+                elif ncalls_msg != want["identcalls"]:
                     _viol(res, prop_clauses, "msg.touched_skipped_node",
                           "`{}` x={!r} y={!r}: ident() was called {} times while building the message, the "
                           "specification allows {}".format(text, xv, yv, ncalls_msg, want["identcalls"]), c)
@@ -573,6 +585,30 @@ def fam_nested(rng: random.Random, budget: int) -> List[list]:
     return out
 
 
+def fam_typeof(rng: random.Random) -> List[list]:
+    """Calls whose result is a class (type(..)) used by comparisons, boolean operators and other calls; operands of a
+    comparison chain that are calls (each must be evaluated at most once while the message is built)."""
+    names = [[_nd("name", 1)], [_nd("name", 2)], [_nd("name", 3)]]
+    out = []
+    for a in names:
+        ta = [_nd("typeof")] + a
+        out += [[_nd("not")] + ta, [_nd("ident")] + ta, [_nd("isnone")] + ta, [_nd("typeof")] + ta,
+                [_nd("not")] + [_nd("ident")] + ta]
+        for b in names:
+            tb = [_nd("typeof")] + b
+            out += [[_nd("eq")] + ta + tb, [_nd("not")] + [_nd("eq")] + ta + tb, [_nd("and")] + ta + [_nd("eq")] + ta + tb,
+                    [_nd("or")] + [_nd("eq")] + ta + tb + [_nd("isnone")] + b,
+                    [_nd("ifexp")] + [_nd("eq")] + ta + tb + [_nd("false")] + [_nd("isnone")] + ta]
+    # chains with calls as operands
+    i0, i2 = [_nd("int", 0)], [_nd("int", 2)]
+    for a in names[:2]:
+        for b in names[:2]:
+            ia, ib = [_nd("ident")] + a, [_nd("ident")] + b
+            out += [[_nd("lt2")] + i0 + ia + i2, [_nd("lt2")] + ia + ib + i2, [_nd("lt2")] + i0 + ia + ib,
+                    [_nd("lt2")] + ia + i2 + ib, [_nd("not")] + [_nd("ident")] + [_nd("lt2")] + i0 + ia + ib]
+    return out
+
+
 def fam_guards(rng: random.Random, budget: int) -> List[list]:
     """Guard patterns: later operands are defined only if earlier ones hold (the documented recipes)."""
     x, y = [_nd("name", 1)], [_nd("name", 2)]
@@ -642,6 +678,9 @@ LAYOUTS = {
     "dbc-method": "class D{F}(icontract.DBC):\n    @icontract.require(lambda x, y: {E})\n    def m(self, x, y):\n        return 1\ndef {F}(x, y):\n    return D{F}().m(x, y)\n",
     "continuation-identifiers": "@icontract.require(\n    lambda x, y: {E},\n    description=\n    definitely,\n    error=\n    classy_error)\ndef {F}(x, y):\n    return 1\n",
     "continuation-identifiers-2": "@icontract.require(\n    error=\n    classy_error, condition=lambda x, y:\n    {E}, description=\n    definitely)\ndef {F}(x, y):\n    return 1\n",
+    "default-dict": "@icontract.require(lambda x, y, known={'ok': 200, 'gone': 410}: {E})\ndef {F}(x, y):\n    return 1\n",
+    "default-slice": "@icontract.require(lambda x, y, part=[1, 2, 3][0:2]: {E})\ndef {F}(x, y):\n    return 1\n",
+    "default-lambda": "@icontract.require(lambda x, y, fn=lambda z: z: {E})\ndef {F}(x, y):\n    return 1\n",
     "blank-lines-and-tabs": "@icontract.require(\n\n\tlambda x, y: {E}\n\n)\ndef {F}(x, y):\n    return 1\n",
 }
 
